@@ -2,7 +2,7 @@
    the randomised alternating iteration is NOT a theorem (partial, see DESIGN.md); it is measured by the check.
    Only theorem statements closed by `exact`, each followed by Print Assumptions. *)
 From Coq Require Import List Arith.
-From TT Require Import OrdRing RankChop RankChopP Skel SkelP.
+From TT Require Import RingSig SumN Mat Core OrdRing RankChop RankChopP Skel SkelP FrobP OrthP GaugeP.
 Import ListNotations.
 Section C11.
 Context {T : Type} {OO : OrdOps T} {OL : OrdLaws T}.
@@ -23,6 +23,26 @@ Theorem C11_sweep_budget dm1 pos eps2 (qs : list (list T)) rs q1 qt : qs = q1 ::
   ole (omul (ofnat dm1) (sweep_discarded qs rs)) (omul (ofnat (length qs)) (omul eps2 (sumT q1))).
 Proof. exact (sweep_budget dm1 pos eps2 qs rs q1 qt). Qed.
 End C11.
+(* ---- why truncating the small (super)core truncates the tensor by the same amount: in the mixed orthogonal gauge the DMRG / AMEn sweeps
+   maintain (orthonormal left unfoldings before the centre, orthonormal right unfoldings after it), the squared norm of the train is the
+   squared norm of the centre core, and replacing the centre core by any other core - e.g. the product of its truncated SVD factors - moves
+   the tensor by exactly the Frobenius distance of the two cores.  Any order, sizes, ranks; real and complex. ---- *)
+Section Gauge.
+Context {R : Type} {RO : RingOps R} {RL : RingLaws R}.
+Theorem C11_norm2_centre_core (pre post : tt R) (c : core3 R) : linked 1 pre -> Forall left_orth pre -> chained (r1 c) post -> Forall right_orth post ->
+  sum_idx (shape (pre ++ c :: post)) (fun idx => rmul (entry (pre ++ c :: post) idx) (rconj (entry (pre ++ c :: post) idx)))
+  = sum_n (Core.nn c) (fun i => sum_n (endrank 1 pre) (fun p => sum_n (r1 c) (fun q => rmul (e3 c p i q) (rconj (e3 c p i q))))).
+Proof. exact (norm2_centre_core pre post c). Qed.
+Theorem C11_centre_core_error (pre post : tt R) (c c' : core3 R) :
+  linked 1 pre -> Forall left_orth pre -> chained (r1 c) post -> Forall right_orth post -> r1 c' = r1 c -> Core.nn c' = Core.nn c ->
+  sum_idx (shape (pre ++ c :: post)) (fun idx => rmul (rsub (entry (pre ++ c :: post) idx) (entry (pre ++ c' :: post) idx))
+                                                       (rconj (rsub (entry (pre ++ c :: post) idx) (entry (pre ++ c' :: post) idx))))
+  = sum_n (Core.nn c) (fun i => sum_n (endrank 1 pre) (fun p => sum_n (r1 c) (fun q => rmul (rsub (e3 c p i q) (e3 c' p i q)) (rconj (rsub (e3 c p i q) (e3 c' p i q)))))).
+Proof. exact (centre_core_error pre post c c'). Qed.
+End Gauge.
+
 Print Assumptions C11_dmrg_last_allowance.
 Print Assumptions C11_dmrg_bond_rank_le.
 Print Assumptions C11_sweep_budget.
+Print Assumptions C11_norm2_centre_core.
+Print Assumptions C11_centre_core_error.
